@@ -13,41 +13,51 @@ Open Scope bs_scope.
 Open Scope res_scope.
 
 (* ------------------------------------------------------------------ *)
-(* outcomes: a value satisfying P, or one of the library's exceptions    *)
+(* outcomes: a value satisfying P, or an admissible exception             *)
+
+Definition TT {A} : A -> Prop := fun _ => True.
+(* the admissible exceptions: the library's own ... *)
+Definition hl7_only (x : exn) : Prop := match x with HL7 _ => True | _ => False end.
+(* ... and, for a leaf layer that validates values, ValueError under STRICT only *)
+Definition hl7_or_value (lvl : level) (x : exn) : Prop :=
+  match x with HL7 _ => True | PyValueError => lvl = STRICT | _ => False end.
+
+Section NC.
+(* Adm = the exceptions the leaf function may raise (they propagate unchanged); it contains the
+   library's exceptions; the parser / constructors themselves only ever raise the latter *)
+Variable Adm : exn -> Prop.
+Hypothesis AdmH : forall c, Adm (HL7 c).
 
 Definition sp {A} (P : A -> Prop) (r : result A) : Prop :=
-  match r with Ok a => P a | Err (HL7 _) => True | Err _ => False end.
-Definition TT {A} : A -> Prop := fun _ => True.
+  match r with Ok a => P a | Err x => Adm x end.
+
+Ltac triv := first [exact I | apply AdmH | (cbn; apply AdmH)].
 
 Lemma sp_ok {A} (P : A -> Prop) a : P a -> sp P (Ok a).
 Proof. exact (fun H => H). Qed.
 Lemma sp_err {A} (P : A -> Prop) c : sp P (Err (HL7 c)).
-Proof. exact I. Qed.
+Proof. apply AdmH. Qed.
 Lemma sp_bind {A B} (P : A -> Prop) (Q : B -> Prop) (r : result A) (f : A -> result B) :
   sp P r -> (forall a, P a -> sp Q (f a)) -> sp Q (bind r f).
-Proof. destruct r as [a|[c| |k|]]; cbn; auto; tauto. Qed.
+Proof. destruct r as [a|x]; cbn; auto. Qed.
 Lemma sp_bind_eq {A B} (P : A -> Prop) (Q : B -> Prop) (r : result A) (f : A -> result B) :
   sp P r -> (forall a, r = Ok a -> P a -> sp Q (f a)) -> sp Q (bind r f).
-Proof. destruct r as [a|[c| |k|]]; cbn; auto; tauto. Qed.
+Proof. destruct r as [a|x]; cbn; auto. Qed.
 Lemma sp_weaken {A} (P Q : A -> Prop) r : (forall a, P a -> Q a) -> sp P r -> sp Q r.
-Proof. destruct r as [a|[c| |k|]]; cbn; auto. Qed.
-Lemma sp_and {A} (P Q : A -> Prop) r : sp P r -> (forall a, r = Ok a -> Q a) -> sp (fun a => P a /\ Q a) r.
-Proof. destruct r as [a|[c| |k|]]; cbn; auto. Qed.
+Proof. destruct r as [a|x]; cbn; auto. Qed.
 Lemma sp_post {A} (P Q : A -> Prop) r : sp P r -> (forall a, r = Ok a -> P a -> Q a) -> sp Q r.
-Proof. destruct r as [a|[c| |k|]]; cbn; auto. Qed.
+Proof. destruct r as [a|x]; cbn; auto. Qed.
 Lemma sp_inv {A} (P : A -> Prop) r a : sp P r -> r = Ok a -> P a.
 Proof. intros H ->. exact H. Qed.
-(* the result is a value or an hl7apy exception: never IndexError/KeyError/TypeError/
-   AttributeError, never ValueError, never out of fuel *)
-Lemma sp_cases {A} (P : A -> Prop) r : sp P r -> (exists a, r = Ok a /\ P a) \/ (exists c, r = Err (HL7 c)).
-Proof. destruct r as [a|[c| |k|]]; cbn; intros H; try tauto; [left; eauto|right; eauto]. Qed.
+(* the result is a value or an admissible exception *)
+Lemma sp_cases {A} (P : A -> Prop) r : sp P r -> (exists a, r = Ok a /\ P a) \/ (exists x, r = Err x /\ Adm x).
+Proof. destruct r as [a|x]; cbn; intros H; [left; eauto|right; eauto]. Qed.
 (* `except InvalidName:` handlers *)
 Lemma sp_fallback {A} (P : A -> Prop) (f : unit -> result A) (alt : result A) :
   sp P (f tt) -> sp P alt ->
   sp P (match f tt with Err (HL7 EInvalidName) => alt | x => x end).
 Proof. destruct (f tt) as [a|[[]| |k|]]; cbn; auto. Qed.
 
-Section NC.
 Variable t : tables.
 Notation base := (base t).
 
@@ -71,7 +81,7 @@ Proof. apply (ref_ok_intro _ (mk_structure (SLeaf i) None [] [] [] (Some i))); [
 Lemma ref_in_ok st n : ost_ok st -> oref_ok (ref_in st n).
 Proof.
   unfold ref_in. destruct st as [s|]; [|exact (fun _ => I)]. cbn [ost_ok]. intros H.
-  destruct (st_ordered s); [|exact I]. destruct (by_name s n) as [en|] eqn:E; [|exact I].
+  destruct (st_ordered s); [|triv]. destruct (by_name s n) as [en|] eqn:E; [|triv].
   exact (H n en E).
 Qed.
 
@@ -133,7 +143,7 @@ Lemma structure_for_safe k name reference : k = FIE \/ k = CMP -> oref_ok refere
   sp st_ok (structure_for t k name reference).
 Proof.
   intros Hk Hr. unfold structure_for. destruct reference as [r|]; [exact (ref_ok_parse r Hr)|].
-  unfold load_reference. destruct (slookup name (table_of t k)) as [r|] eqn:E; [|exact I].
+  unfold load_reference. destruct (slookup name (table_of t k)) as [r|] eqn:E; [|triv].
   apply ref_ok_parse. destruct Hk as [-> | ->]; [exact (Hfields _ _ E)|exact (Hcomps _ _ E)].
 Qed.
 
@@ -142,9 +152,9 @@ Lemma set_datatype_ctor_safe lvl is_sub old old_st new : dt_simple new -> ost_ok
   sp (fun p => ost_ok (snd p)) (set_datatype_ctor t lvl is_sub old old_st new).
 Proof.
   intros Hn Ho. unfold set_datatype_ctor. destruct is_sub.
-  - destruct (match new with Some n => _ | None => false end); [exact I|].
-    destruct (_ && _ && _); [exact I|exact Ho].
-  - destruct (is_strict lvl && _ && _); [exact I|].
+  - destruct (match new with Some n => _ | None => false end); [triv|].
+    destruct (_ && _ && _); [triv|exact Ho].
+  - destruct (is_strict lvl && _ && _); [triv|].
     assert (C : negb (base new) && negb (is_varies new) && (match new with Some _ => true | None => false end) = false).
     { destruct Hn as [-> | Hb]; [reflexivity|]. now rewrite Hb. }
     rewrite C. cbn [andb]. exact Ho.
@@ -166,20 +176,20 @@ Proof.
   rewrite C. clear C. cbn [bind].
   apply (sp_bind (fun p : option str * option structure => ost_ok (snd p))).
   - destruct (valid_child_name name (Some (unbs "VARIES"))).
-    + destruct reference' as [r|]; [|exact I].
+    + destruct reference' as [r|]; [|triv].
       apply (sp_bind st_ok); [exact (ref_ok_parse r Hr')|]. intros s Hs. exact Hs.
     + destruct name as [n|].
       * pose proof (structure_for_safe CMP (upper n) reference' (or_intror eq_refl) Hr') as S.
-        destruct (structure_for t CMP (upper n) reference') as [s|[c| |k|]]; cbn in S |- *; tauto.
-      * destruct reference' as [r|]; [|exact I].
+        destruct (structure_for t CMP (upper n) reference') as [s|x]; cbn in S |- *; exact S.
+      * destruct reference' as [r|]; [|triv].
         apply (sp_bind st_ok); [exact (ref_ok_parse r Hr')|]. intros s Hs. exact Hs.
   - intros [nm st] Hs. cbn [snd] in Hs.
-    destruct (is_sub && _); [exact I|].
-    match goal with |- sp _ (if ?b then _ else _) => destruct b; [exact I|] end.
+    destruct (is_sub && _); [triv|].
+    match goal with |- sp _ (if ?b then _ else _) => destruct b; [triv|] end.
     destruct nm as [[|c n]|].
     + apply (sp_bind (fun p : option str * option structure => ost_ok (snd p)));
         [now apply set_datatype_ctor_safe|]. intros [dt st'] H. exact H.
-    + destruct (is_strict lvl && _ && _); [exact I|]. destruct datatype as [d|]; [|exact Hs].
+    + destruct (is_strict lvl && _ && _); [triv|]. destruct datatype as [d|]; [|exact Hs].
       apply (sp_bind (fun p : option str * option structure => ost_ok (snd p)));
         [now apply set_datatype_ctor_safe|]. intros [dt st'] H. exact H.
     + apply (sp_bind (fun p : option str * option structure => ost_ok (snd p)));
@@ -195,11 +205,11 @@ Hypothesis Hleaf : forall dt s, sp TT (leaf dt s).
 Lemma mk_subcomponent_safe name datatype value reference : dt_simple datatype -> oref_ok reference ->
   sp TT (mk_subcomponent t lvl leaf name datatype value reference).
 Proof.
-  intros Hd Hr. unfold mk_subcomponent. destruct (_ && _); [exact I|].
+  intros Hd Hr. unfold mk_subcomponent. destruct (_ && _); [triv|].
   apply (sp_bind (fun p : option str * option str * option structure => ost_ok (snd p)));
     [now apply canbevaries_safe|].
-  intros [[nm dt] st] _. destruct value as [|c v]; [exact I|].
-  apply (sp_bind TT); [apply Hleaf|]. intros x _. exact I.
+  intros [[nm dt] st] _. destruct value as [|c v]; [triv|].
+  apply (sp_bind TT); [apply Hleaf|]. intros x _. triv.
 Qed.
 
 Lemma mk_component_safe name datatype reference : dt_simple datatype -> oref_ok reference ->
@@ -208,7 +218,7 @@ Proof.
   intros Hd Hr. unfold mk_component.
   apply (sp_bind (fun p : option str * option str * option structure => ost_ok (snd p)));
     [now apply canbevaries_safe|].
-  intros [[nm dt] st] H. cbn [snd] in H. destruct (_ && _ && _ && _); [exact I|exact H].
+  intros [[nm dt] st] H. cbn [snd] in H. destruct (_ && _ && _ && _); [triv|exact H].
 Qed.
 
 Lemma dt_simple_none : dt_simple None.
@@ -223,26 +233,26 @@ Definition field_named (name : option str) (f : field) : Prop :=
 Lemma mk_field_safe name reference : oref_ok reference ->
   sp (fun f => ost_ok (f_st f) /\ field_named name f /\ f_children f = []) (mk_field t lvl name None reference).
 Proof.
-  intros Hr. unfold mk_field. destruct (_ && _ && _); [exact I|].
+  intros Hr. unfold mk_field. destruct (_ && _ && _); [triv|].
   change (is_varies None) with false. cbn [andb].
   destruct name as [n0|].
   - apply (sp_bind (fun p : structure * option str => st_ok (fst p) /\ dt_simple (snd p))).
     + pose proof (structure_for_safe FIE (upper n0) reference (or_introl eq_refl) Hr) as S.
-      destruct (structure_for t FIE (upper n0) reference) as [st|[c| |k|]]; cbn in S; try tauto.
+      destruct (structure_for t FIE (upper n0) reference) as [st|[c| |k|]]; cbn in S; try exact S.
       * cbn. split; [exact S|apply dt_simple_none].
-      * destruct c; try exact I. destruct (valid_z_field_name n0); [|exact I].
+      * destruct c; try triv. destruct (valid_z_field_name n0); [|triv].
         rewrite Hst. apply (sp_bind st_ok); [apply ref_ok_parse, leaf_ref_ok|].
         intros st Hs. cbn. split; [exact Hs|apply dt_simple_ST].
     + intros [st dt] [Hs Hd]. cbn [fst snd] in Hs, Hd.
-      destruct (_ && _ && _ && _); [exact I|].
+      destruct (_ && _ && _ && _); [triv|].
       destruct dt as [d|].
       * apply (sp_bind (fun p : option str * option structure => ost_ok (snd p)));
           [now apply set_datatype_ctor_safe|].
         intros [dt st'] H. cbn [snd] in H. cbn. split; [exact H|]. split; [|reflexivity]. right. now exists n0.
       * cbn. split; [exact Hs|]. split; [|reflexivity]. right. now exists n0.
   - apply (sp_bind (fun p : option str * option structure => ost_ok (snd p)));
-      [apply set_datatype_ctor_safe; [apply dt_simple_none|exact I]|].
-    intros [dt st'] H. cbn. split; [exact I|]. split; [now left|reflexivity].
+      [apply set_datatype_ctor_safe; [apply dt_simple_none|triv]|].
+    intros [dt st'] H. cbn. split; [triv|]. split; [now left|reflexivity].
 Qed.
 
 (* ---------- child admission only raises the library's exceptions ---------- *)
@@ -252,30 +262,30 @@ Proof.
   repeat match goal with
          | |- sp _ (if ?b then _ else _) => destruct b
          | |- sp _ (match ?o with Some _ => _ | None => _ end) => destruct o
-         end; exact I.
+         end; triv.
 Qed.
 
 Lemma add_subs_safe kids : forall c, sp TT (add_subs t lvl c kids).
 Proof.
-  induction kids as [|k rest IH]; intros c; [exact I|]. cbn [add_subs].
-  destruct (_ && _ && _); [exact I|]. destruct (_ && _ && _); [exact I|].
+  induction kids as [|k rest IH]; intros c; [triv|]. cbn [add_subs].
+  destruct (_ && _ && _); [triv|]. destruct (_ && _ && _); [triv|].
   apply (sp_bind TT); [apply valid_child_complex_safe|]. intros v _.
-  destruct (negb v); [exact I|]. destruct (negb _); [exact I|]. apply IH.
+  destruct (negb v); [triv|]. destruct (negb _); [triv|]. apply IH.
 Qed.
 
 Lemma add_comps_safe kids : forall f, sp TT (add_comps t lvl f kids).
 Proof.
-  induction kids as [|k rest IH]; intros f; [exact I|]. cbn [add_comps].
-  destruct (_ && _ && _); [exact I|].
+  induction kids as [|k rest IH]; intros f; [triv|]. cbn [add_comps].
+  destruct (_ && _ && _); [triv|].
   apply (sp_bind TT); [apply valid_child_complex_safe|]. intros v _.
-  destruct (negb v); [exact I|]. destruct (negb _); [exact I|]. apply IH.
+  destruct (negb v); [triv|]. destruct (negb _); [triv|]. apply IH.
 Qed.
 
 (* ---------- parse_subcomponents / parse_component ---------- *)
 Lemma parse_subcomponents_aux_safe cdt st l : ost_ok st ->
   sp TT (parse_subcomponents_aux t lvl leaf cdt st l).
 Proof.
-  intros Hs. induction l as [|[i s] rest IH]; [exact I|]. cbn [parse_subcomponents_aux].
+  intros Hs. induction l as [|[i s] rest IH]; [triv|]. cbn [parse_subcomponents_aux].
   assert (K : forall nm dt ref, dt_simple dt -> oref_ok ref ->
     sp TT (if materialise s nm
            then do x <- mk_subcomponent t lvl leaf nm dt s ref;
@@ -283,16 +293,16 @@ Proof.
            else parse_subcomponents_aux t lvl leaf cdt st rest)).
   { intros nm dt ref Hd Hr. destruct (materialise s nm); [|exact IH].
     apply (sp_bind TT); [now apply mk_subcomponent_safe|]. intros x _.
-    apply (sp_bind TT); [exact IH|]. intros xs _. exact I. }
+    apply (sp_bind TT); [exact IH|]. intros xs _. triv. }
   destruct (base cdt || opt_is_none cdt) eqn:C; cbn beta iota.
-  - apply K; [|exact I]. destruct cdt as [d|]; [|apply dt_simple_ST].
+  - apply K; [|triv]. destruct cdt as [d|]; [|apply dt_simple_ST].
     right. cbn [opt_is_none] in C. now rewrite orb_false_r in C.
   - destruct (has_map st); cbn beta iota.
     + pose proof (ref_in_ok st (name_idx (str_of_opt cdt) i) Hs) as R.
       destruct (ref_in st (name_idx (str_of_opt cdt) i)) as [r|]; cbn beta iota.
       * apply K; [apply dt_simple_none|exact R].
-      * apply K; [apply dt_simple_ST|exact I].
-    + apply K; [apply dt_simple_none|exact I].
+      * apply K; [apply dt_simple_ST|triv].
+    + apply K; [apply dt_simple_none|triv].
 Qed.
 
 Lemma parse_component_safe text name datatype reference : dt_simple datatype -> oref_ok reference ->
@@ -301,7 +311,7 @@ Proof.
   intros Hd Hr. unfold parse_component.
   apply (sp_bind (fun c => ost_ok (c_st c))).
   - apply (sp_fallback _ (fun _ => mk_component t lvl name datatype reference)); [now apply mk_component_safe|].
-    destruct (is_strict lvl); [exact I|]. apply mk_component_safe; [apply dt_simple_none|exact Hr].
+    destruct (is_strict lvl); [triv|]. apply mk_component_safe; [apply dt_simple_none|exact Hr].
   - intros c Hc. apply (sp_bind TT); [now apply parse_subcomponents_aux_safe|]. intros kids _.
     apply add_subs_safe.
 Qed.
@@ -310,7 +320,7 @@ Qed.
 Lemma parse_components_aux_safe fdt st l : ost_ok st ->
   sp TT (parse_components_aux t lvl e leaf fdt st l).
 Proof.
-  intros Hs. induction l as [|[i s] rest IH]; [exact I|]. cbn [parse_components_aux].
+  intros Hs. induction l as [|[i s] rest IH]; [triv|]. cbn [parse_components_aux].
   assert (K : forall nm cdt ref, dt_simple cdt -> oref_ok ref ->
     sp TT (if negb (is_blank s) || opt_is_none nm || (match nm with Some n => bstarts "VARIES_" n | None => false end)
            then do x <- parse_component t lvl e leaf s nm cdt ref;
@@ -318,11 +328,11 @@ Proof.
            else parse_components_aux t lvl e leaf fdt st rest)).
   { intros nm cdt ref Hd Hr. destruct (_ || _ || _); [|exact IH].
     apply (sp_bind TT); [now apply parse_component_safe|]. intros x _.
-    apply (sp_bind TT); [exact IH|]. intros xs _. exact I. }
+    apply (sp_bind TT); [exact IH|]. intros xs _. triv. }
   assert (R : forall n, oref_ok (if has_map st then ref_in st n else None)).
-  { intros n. destruct (has_map st); [now apply ref_in_ok|exact I]. }
+  { intros n. destruct (has_map st); [now apply ref_in_ok|triv]. }
   destruct (base fdt) eqn:B; cbn beta iota.
-  - apply K; [now right|exact I].
+  - apply K; [now right|triv].
   - destruct (opt_is_none fdt || is_varies fdt); cbn beta iota; (apply K; [apply dt_simple_none|apply R]).
 Qed.
 
@@ -354,8 +364,8 @@ Proof.
       intros f [H1 [H2 H3]]. split; [exact H1|]. split; [|exact H3].
       left. destruct H2 as [H2|[n [H2 _]]]; [exact H2|discriminate].
   - intros f [Hs [Hn Hc]]. destruct (is_msh12 name) eqn:M.
-    + apply (sp_bind TT); [apply mk_subcomponent_safe; [apply dt_simple_ST|exact I]|]. intros s _.
-      apply (sp_bind TT); [eapply sp_weaken; [|apply (mk_component_safe None (Some (unbs "ST")) None dt_simple_ST I)]; intros; exact I|].
+    + apply (sp_bind TT); [apply mk_subcomponent_safe; [apply dt_simple_ST|triv]|]. intros s _.
+      apply (sp_bind TT); [eapply sp_weaken; [|apply (mk_component_safe None (Some (unbs "ST")) None dt_simple_ST I)]; intros; triv|].
       intros c0 _.
       apply (sp_bind_eq TT); [apply add_subs_safe|]. intros c Ec _.
       eapply sp_post; [apply add_comps_safe|]. intros f' Ef _.
@@ -394,7 +404,7 @@ Lemma parse_fields_aux_safe prefix st fv l : ost_ok st ->
 Proof.
   intros Hs. induction l as [|[i f] rest IH]; [constructor|]. cbn [parse_fields_aux].
   set (ref := if has_map st then ref_in st (name_idx prefix i) else None).
-  assert (R : oref_ok ref) by (subst ref; destruct (has_map st); [now apply ref_in_ok|exact I]).
+  assert (R : oref_ok ref) by (subst ref; destruct (has_map st); [now apply ref_in_ok|triv]).
   assert (W : forall reps fv', sp (Forall (seg_field prefix))
                 (parse_reps t lvl e leaf reps (Some (name_idx prefix i)) ref fv')).
   { intros reps fv'. eapply sp_weaken; [|apply (parse_reps_safe reps _ ref fv' R)].
@@ -413,14 +423,14 @@ Lemma add_fields_safe P kids : length P = 3 ->
   Forall (fun k => f_name k = None \/ exists i, f_name k = Some (name_idx P i)) kids ->
   forall s, sp TT (add_fields t lvl s kids).
 Proof.
-  intros H3 Hk. induction Hk as [|k rest Hk _ IH]; intros s; [exact I|]. cbn [add_fields].
+  intros H3 Hk. induction Hk as [|k rest Hk _ IH]; intros s; [triv|]. cbn [add_fields].
   destruct (f_name k) as [kn|] eqn:N.
-  - destruct (_ && _); [destruct (known_field t kn); exact I|].
-    destruct (negb (bstarts _ _)); [exact I|]. destruct (negb (card_ok _ _ _ _ _)); [exact I|].
+  - destruct (_ && _); [destruct (known_field t kn); triv|].
+    destruct (negb (bstarts _ _)); [triv|]. destruct (negb (card_ok _ _ _ _ _)); [triv|].
     destruct (s_inf s && _); [|apply IH].
     destruct Hk as [Hk|[i Hk]]; [discriminate|]. injection Hk as ->.
     rewrite (name_idx3_drop4 P i H3), nat_to_str_py_int. apply IH.
-  - destruct (is_strict lvl); [exact I|apply IH].
+  - destruct (is_strict lvl); [triv|apply IH].
 Qed.
 
 (* ---------- the encoder ---------- *)
@@ -490,16 +500,26 @@ Proof.
   apply andb_prop in H. destruct H as [_ H]. now apply Nat.eqb_eq.
 Qed.
 
-Lemma mk_segment_safe name : length name <= 3 ->
-  sp (fun s => st_ok (s_st s) /\ s_children s = [] /\ length name = 3) (mk_segment t name None).
+Lemma mk_segment_safe_ref name reference : length name <= 3 ->
+  (forall r, reference = Some r -> seg_good (upper name) r) ->
+  sp (fun s => st_ok (s_st s) /\ s_children s = [] /\ length name = 3) (mk_segment t name reference).
 Proof.
-  intros Hlen. unfold mk_segment. destruct (valid_z_segment_name name) eqn:Z.
-  - change (parse_structure t empty_seq) with (Ok (mk_structure empty_seq (Some []) [] [] [] None)).
-    cbn [bind]. cbn. split; [|split; [reflexivity|now apply z_name_length]].
-    intros k en H. discriminate.
-  - unfold structure_for, load_reference. cbn [table_of].
-    destruct (slookup (upper name) (t_segments t)) as [r|] eqn:E; [|exact I].
-    destruct (Hsegs (upper name) r) as [rows [-> [H3 [Hc Hg]]]]; [now rewrite upper_length|exact E|].
+  intros Hlen Href. unfold mk_segment. destruct (valid_z_segment_name name) eqn:Z.
+  - destruct reference as [r|].
+    + destruct (Href r eq_refl) as [rows [-> [H3 [Hc Hg]]]].
+      destruct (rows_parse (SSeqIn false rows None) false rows None (upper name) FIE eq_refl Hc Hg)
+        as [st [-> [Hs _]]].
+      cbn. split; [exact Hs|]. split; [reflexivity|now apply z_name_length].
+    + change (parse_structure t empty_seq) with (Ok (mk_structure empty_seq (Some []) [] [] [] None)).
+      cbn [bind]. cbn. split; [|split; [reflexivity|now apply z_name_length]].
+      intros k en H. discriminate.
+  - assert (G : structure_for t SEG (upper name) reference = Err (HL7 EInvalidName) \/
+                exists r, seg_good (upper name) r /\ structure_for t SEG (upper name) reference = parse_structure t r).
+    { unfold structure_for, load_reference. cbn [table_of]. destruct reference as [r|].
+      - right. exists r. split; [now apply Href|reflexivity].
+      - destruct (slookup (upper name) (t_segments t)) as [r|] eqn:E; [|now left].
+        right. exists r. split; [|reflexivity]. apply Hsegs; [now rewrite upper_length|exact E]. }
+    destruct G as [-> | [r [[rows [-> [H3 [Hc Hg]]]] ->]]]; [triv|].
     destruct (rows_parse (SSeqIn false rows None) false rows None (upper name) FIE eq_refl Hc Hg)
       as [st [-> [Hs [Ho Hb]]]].
     rewrite upper_length in H3.
@@ -513,15 +533,20 @@ Proof.
       cbn. auto.
 Qed.
 
+Lemma mk_segment_safe name : length name <= 3 ->
+  sp (fun s => st_ok (s_st s) /\ s_children s = [] /\ length name = 3) (mk_segment t name None).
+Proof. intros H. apply mk_segment_safe_ref; [exact H|]. intros r E. discriminate. Qed.
+
 (* C15, segment level: parse_segment returns a Segment or raises one of the library's exceptions,
    and every Segment it returns can be encoded, with and without trailing children *)
-Theorem parse_segment_safe text :
+Theorem parse_segment_safe_ref text reference :
+  (forall r, reference = Some r -> seg_good (upper (seg_name_of text)) r) ->
   sp (fun s => forall e' trailing, exists x, enc_segment t e' s trailing = Ok x)
-     (parse_segment t lvl e leaf text None).
+     (parse_segment t lvl e leaf text reference).
 Proof.
-  unfold parse_segment.
+  intros Href. unfold parse_segment.
   apply (sp_bind (fun s => st_ok (s_st s) /\ s_children s = [] /\ length (seg_name_of text) = 3)).
-  - apply mk_segment_safe. unfold seg_name_of, take. apply firstn_le_length.
+  - apply mk_segment_safe_ref; [|exact Href]. unfold seg_name_of, take. apply firstn_le_length.
   - intros s [Hs [Hc H3]]. unfold parse_segment_in, parse_fields.
     apply (sp_bind (Forall (seg_field (seg_name_of text)))); [now apply parse_fields_aux_safe|].
     intros kids Hk.
@@ -533,4 +558,18 @@ Proof.
       rewrite Forall_forall in Hk. exact (proj2 (Hk f Hf) e').
 Qed.
 
+Theorem parse_segment_safe text :
+  sp (fun s => forall e' trailing, exists x, enc_segment t e' s trailing = Ok x)
+     (parse_segment t lvl e leaf text None).
+Proof. apply parse_segment_safe_ref. intros r E. discriminate. Qed.
+
 End NC.
+
+(* ---------- reading the outcome ---------- *)
+Lemma sp_hl7_cases {A} (P : A -> Prop) r : sp hl7_only P r ->
+  (exists a, r = Ok a /\ P a) \/ (exists c, r = Err (HL7 c)).
+Proof. destruct r as [a|[c| |k|]]; cbn; intros H; try tauto; [left; eauto|right; eauto]. Qed.
+
+Lemma sp_value_cases {A} lvl (P : A -> Prop) r : sp (hl7_or_value lvl) P r ->
+  (exists a, r = Ok a /\ P a) \/ (exists c, r = Err (HL7 c)) \/ (r = Err PyValueError /\ lvl = STRICT).
+Proof. destruct r as [a|[c| |k|]]; cbn; intros H; try tauto; [left; eauto|right; left; eauto]. Qed.
